@@ -308,7 +308,7 @@ def _check(prop, tier, seed, py, modname, plan, scratch, ev_path, t0):
           '%d paths, %d z3 queries, %.0fs wall%s' % (prop, tier, nconf, nslices, nlem_ok, nlem, twins_ok, twins_total, evaluations,
                                                       z3_queries, wall, '' if all_exhausted else ' (some conditions not exhausted: see evidence)'))
     for fkey, what, path in violations[:12]:
-        print('  violation %s: %s' % (fkey, str(what)[:600]))
+        print('  violation %s: %s' % (str(fkey).encode('unicode_escape').decode()[:200], str(what).encode('unicode_escape').decode()[:600]))
         print('VIOLATION property=%s replay=%s' % (prop, path))
     if len(violations) > 12:
         print('  ... and %d more violations (see evidence/replays)' % (len(violations) - 12))
